@@ -419,6 +419,67 @@ pub fn run(tier: Tier) -> i32 {
         }
     });
     rep.absorb("extra", st);
+    // ---- inside a reference which is turned or sheared: every boundary sample point of the result, taken back into
+    // the reference's own user space, lies within the reference's own area
+    #[derive(Clone, Copy)]
+    enum Turn {
+        Rotate(f64),
+        SkewX(f64),
+    }
+    let turned: Vec<(&str, &str, Shape, (f64, f64, f64, f64), Turn)> = vec![
+        ("rect-rotate-45", r#"<rect id="a" wh="10" transform="rotate(45)"/>"#, Shape::Rect, (0., 0., 10., 10.), Turn::Rotate(45.)),
+        ("rect-rotate-30", r#"<rect id="a" xy="2 1" wh="20 8" transform="rotate(30)"/>"#, Shape::Rect, (2., 1., 22., 9.), Turn::Rotate(30.)),
+        ("circle-rotate-45", r#"<circle id="a" r="10" transform="rotate(45)"/>"#, Shape::Circle { cx: 0., cy: 0., r: 10. }, (-10., -10., 10., 10.), Turn::Rotate(45.)),
+        ("ellipse-rotate-60", r#"<ellipse id="a" cxy="3 2" rxy="12 5" transform="rotate(60)"/>"#, Shape::Ellipse { cx: 3., cy: 2., rx: 12., ry: 5. }, (-9., -3., 15., 7.), Turn::Rotate(60.)),
+        ("rect-skewx-30", r#"<rect id="a" wh="12 10" transform="skewX(30)"/>"#, Shape::Rect, (0., 0., 12., 10.), Turn::SkewX(30.)),
+        ("circle-skewx-20", r#"<circle id="a" cxy="5" r="6" transform="skewX(20)"/>"#, Shape::Circle { cx: 5., cy: 5., r: 6. }, (-1., -1., 11., 11.), Turn::SkewX(20.)),
+    ];
+    let mut tcases = Vec::new();
+    for t in 0..turned.len() {
+        for container in ["rect", "circle", "ellipse"] {
+            for margin in ["", "0.5"] {
+                tcases.push((t, container, margin));
+            }
+        }
+    }
+    let st = run_space(tcases.len(), |i| {
+        let (t, container, margin) = tcases[i];
+        let (name, src, shape, bbox, turn) = turned[t];
+        let m = if margin.is_empty() { String::new() } else { format!(r#" margin="{margin}""#) };
+        let doc = format!(r##"<svg>{src}<{container} id="x" inside="#a"{m}/></svg>"##);
+        let out = run_str(&doc, &Cfg::plain());
+        let mut problem = None;
+        match &out {
+            Outcome::Ok(o) => match xmlref::parse_tree(o, Mode::Document).ok().and_then(|tr| xmlref::root(&tr).and_then(|r| r.find_id("x").and_then(observe))) {
+                None => problem = Some("the inside element has no geometry".to_string()),
+                Some(obs) => {
+                    let local = RefEl { id: "a", src: "", bbox, shape };
+                    for p in boundary(&obs) {
+                        let q = match turn {
+                            Turn::Rotate(deg) => {
+                                let (s, c) = (-deg).to_radians().sin_cos();
+                                (p.0 * c - p.1 * s, p.0 * s + p.1 * c)
+                            }
+                            Turn::SkewX(deg) => (p.0 - p.1 * deg.to_radians().tan(), p.1),
+                        };
+                        if !point_in_ref(q, &local, 0.002) {
+                            problem = Some(format!("the point ({:.3}, {:.3}) of the result lies outside the reference (in its own user space: ({:.3}, {:.3}))", p.0, p.1, q.0, q.1));
+                            break;
+                        }
+                    }
+                }
+            },
+            other => problem = Some(other.brief()),
+        }
+        CaseResult {
+            case_hash: hash64(&doc),
+            nontrivial: problem.is_none(),
+            outcome_hash: hash64(&format!("{out:?}")),
+            executions: 1,
+            violation: problem.map(|p| Violation { clause: "inside-turned".into(), signature: format!("C12/inside-turned-reference/{name}"), case: json!({"input": doc, "turned": name}), detail: format!("{doc}\n{p}\n{}", clip(&out.brief(), 300)) }),
+        }
+    });
+    rep.absorb("inside-turned-reference", st);
     rep.finish()
 }
 
